@@ -402,6 +402,52 @@ def parts(tier):
                         rule="all ordered pairs of tiers on 4 cells where B's entries (all, or only the first) carry the EMPTY label: "
                              "'overlaps something in B' is a matter of time, not of label text", bounds={"cells": 4}))
 
+    META = ("50%", "%s", "%(x)s", "100%% sure", "{}", "{0}", "{x", "\\1", "$a", "a-b", "a,b", "(a)", "")
+
+    def gen_meta():
+        geos = [(((0.0, 2.0),), ((1.0, 3.0),)), (((0.0, 1.0), (2.0, 3.0)), ((0.5, 2.5),)), (((0.0, 3.0),), ((0.5, 1.0), (2.0, 2.5))), (((1.0, 2.0),), ((1.0, 2.0),))]
+        for ga, gb in geos:
+            for la in META:
+                for lb in META:
+                    yield (tuple((s_, e_, la) for s_, e_ in ga), tuple((s_, e_, lb) for s_, e_ in gb), None)
+            for dem in ("%", "%s", "{}", "\\", "(", ""):
+                yield (tuple((s_, e_, "a") for s_, e_ in ga), tuple((s_, e_, "b%") for s_, e_ in gb), dem)
+
+    def chk_meta(case):
+        ea, eb, dem = case
+        A = IT("A", list(ea), 0.0, 4.0)
+        B = IT("B", list(eb), 0.0, 4.0)
+        FA, FB = ival.fentries(ea), ival.fentries(eb)
+        viols = []
+        todo = [("difference", lambda: A.difference(B), ival.difference(FA, FB))]
+        if dem is None:
+            todo += [("intersection", lambda: A.intersection(B), ival.intersection(FA, FB)), ("mergeLabels", lambda: A.mergeLabels(B), ival.merge_labels(FA, FB))]
+        else:
+            todo += [("intersection", lambda: A.intersection(B, dem), ival.intersection(FA, FB, dem)),
+                     ("mergeLabels", lambda: A.mergeLabels(B, dem), ival.merge_labels(FA, FB, dem))]
+        for name, f, exp in todo:
+            st, r, _ = call(f)
+            if st == "exc":
+                viols.append(Viol(name + "-raised:" + type(r).__name__, f"A={ea} B={eb} demarcator={dem!r}: {r!r}"))
+                continue
+            msg = ival.compare_entries(ents(r), exp, True, name)
+            if msg:
+                viols.append(Viol(name + "-result", msg + f"  [A={ea} B={eb} demarcator={dem!r}]"))
+        st, u, _ = call(A.union, B)
+        if st == "exc":
+            viols.append(Viol("union-raised:" + type(u).__name__, f"A={ea} B={eb}: {u!r}"))
+        else:
+            for g in ents(u):
+                inside = sorted([e for e in list(ea) + list(eb) if g[0] <= e[0] and e[1] <= g[1]], key=lambda e: (e[0], e[1]))
+                if len(inside) > 1 and g[2] != "-".join(e[2] for e in inside) and sorted(g[2].split("-")) != sorted("-".join(e[2] for e in inside).split("-")):
+                    viols.append(Viol("union-result", f"union label {g[2]!r} is not the labels of {inside} joined with '-'  [A={ea} B={eb}]"))
+        return len(todo) + 1, "ok", (ea[0][2], eb[0][2], dem), viols
+
+    ps.append(InputPart("setops-labels-with-format-metacharacters", gen_meta, chk_meta,
+                        rule="4 geometries x all pairs of %d labels that contain the metacharacters of string formatting, templates and regular expressions "
+                             "(%%, %%s, {}, \\1, $, and the demarcators themselves), and 6 such demarcators: labels are copied, never interpreted" % len(META),
+                        bounds={"labels": len(META)}))
+
     def gen_points():
         grid = D.unit_grid(5)
         psets = D.point_sets(grid, 3 if quick else 5)
